@@ -55,6 +55,67 @@ func roundTripPrograms(tier string, visit func(src, from string)) {
 		root := gen.G{C: c}.Program(1)
 		visit(gen.Source(root), "derivation")
 	})
+	// expression shapes: every operator x operand shapes {identifier, grouped identifier, grouped comparison,
+	// logical pair, prefix, call, if-expression} on each side, in every expression context of the statement grammar
+	// (the statement derivations above only carry default values)
+	shapes := func() []*gen.Node {
+		return []*gen.Node{
+			gen.Ident("req.http.A"),
+			gen.Group(gen.Ident("req.http.B")),
+			gen.Group(gen.Infix(gen.Ident("req.http.C"), "==", gen.Str("c"))),
+			gen.Group(gen.Infix(gen.Ident("req.http.D"), "||", gen.Ident("req.http.E"))),
+			gen.Prefix("!", gen.Ident("req.http.F")),
+			gen.Prefix("!", gen.Group(gen.Ident("req.http.G"))),
+			gen.Call("std.tolower", gen.Ident("req.http.H")),
+			gen.Call("std.tolower", gen.Group(gen.Ident("req.http.I"))),
+			gen.IfExpr(gen.Group(gen.Ident("req.http.J")), gen.Str("y"), gen.Str("n")),
+			gen.Str("s"),
+			gen.Int(1),
+		}
+	}
+	contexts := []func(e *gen.Node) *gen.Node{
+		func(e *gen.Node) *gen.Node { return gen.Sub("f", gen.Set("req.http.X", "=", e)) },
+		func(e *gen.Node) *gen.Node { return gen.Sub("f", gen.If(e, gen.N("EsiStatement"))) },
+		func(e *gen.Node) *gen.Node { return gen.Sub("f", gen.Set("req.http.X", "=", gen.Call("fn", e))) },
+		func(e *gen.Node) *gen.Node {
+			return gen.Sub("f", gen.Set("req.http.X", "=", gen.IfExpr(e, gen.Str("y"), gen.Str("n"))))
+		},
+		func(e *gen.Node) *gen.Node {
+			return gen.Sub("f", gen.N("CallStatement", "Subroutine", gen.Ident("other"), "Arguments", []*gen.Node{e}))
+		},
+		func(e *gen.Node) *gen.Node { return gen.Sub("f", gen.N("LogStatement", "Value", e)) },
+		func(e *gen.Node) *gen.Node {
+			return gen.Sub("f", gen.N("ErrorStatement", "Code", gen.Int(600), "Argument", e))
+		},
+		func(e *gen.Node) *gen.Node {
+			return gen.Sub("f", gen.N("FunctionCallStatement", "Function", gen.Ident("std.collect"), "Arguments", []*gen.Node{e}))
+		},
+	}
+	for ci, cx := range contexts {
+		for _, a := range shapes() {
+			visit(gen.Source(gen.VCL(cx(a))), fmt.Sprintf("expr-shape-ctx%d", ci))
+		}
+		for _, op := range []string{"||", "&&", "==", "!=", "~", "!~", "<", ">=", "+", "juxt"} {
+			for li := range shapes() {
+				for ri := range shapes() {
+					l, r := shapes()[li], shapes()[ri]
+					var e *gen.Node
+					switch op {
+					case "+":
+						e = gen.Concat(l, true, r)
+					case "juxt":
+						if r.Kind != "Ident" && r.Kind != "String" && r.Kind != "FunctionCallExpression" && r.Kind != "IfExpression" {
+							continue // juxtaposition needs a right operand starting with an identifier, string or if
+						}
+						e = gen.Concat(l, false, r)
+					default:
+						e = gen.Infix(l, op, r)
+					}
+					visit(gen.Source(gen.VCL(cx(e))), fmt.Sprintf("expr-shape-ctx%d", ci))
+				}
+			}
+		}
+	}
 	for _, l := range gen.LiteralTable() {
 		if l.H["mayreject"] == "1" {
 			continue
